@@ -37,7 +37,7 @@ const BOUNDARY_LENS: [usize; 19] = [
     0, 1, 2, 55, 56, 57, 63, 64, 65, 111, 112, 113, 119, 120, 127, 128, 129, 191, 256,
 ];
 
-fn gen_bytes(rng: &mut Rng, n: usize) -> Vec<u8> {
+pub fn gen_bytes(rng: &mut Rng, n: usize) -> Vec<u8> {
     match rng.below(4) {
         0 => (0..n).map(|_| rng.below(256) as u8).collect(),
         1 => vec![b'a'; n],
@@ -48,7 +48,7 @@ fn gen_bytes(rng: &mut Rng, n: usize) -> Vec<u8> {
     }
 }
 
-fn gen_patch(rng: &mut Rng, tier: Tier) -> Vec<u8> {
+pub fn gen_patch(rng: &mut Rng, tier: Tier) -> Vec<u8> {
     let nlines = rng.urange(0, 12);
     let mut out = Vec::new();
     for i in 0..nlines {
